@@ -12,6 +12,15 @@ def tid (args : List String) : String :=
     match UT.load (fun gap => gap < 1099511627776) 0 (its.filterMap id) with
     | some land => "ok " ++ (if land.isEmpty then "-" else ",".intercalate (land.map toString))
     | none => "err"
+  | ["merge", pre, items] =>
+    let its : List (Option (Option Nat)) := (if items = "_" then [] else items.splitOn ",").map (fun t => if t = "-" then some none else t.toNat?.map some)
+    match pre.toNat? with
+    | none => "bad-op"
+    | some p =>
+      if its.any Option.isNone then "bad-op" else
+      match UT.loadInto (fun gap => gap < 1099511627776) p p (its.filterMap id) with
+      | some land => "ok " ++ ",".intercalate (((List.range p) ++ land).map toString)
+      | none => "err"
   | ["resolve", h] =>
     match unhex h with
     | some s => match UT.resolveTempId s with | some n => toString n | none => "none"
